@@ -75,6 +75,7 @@ class RefRT(object):
         self.flushes_needed = 0
         self.caught = 0
         self.max_depth = 0
+        self.aborted = set()  # paths of tasks failed by a NonAsyncContext
 
     def __repr__(self):
         return "refrt"
@@ -316,6 +317,7 @@ class RefRT(object):
                         self.resolve(leaf)
                 except _WouldBlock:
                     gen.close()
+                    self.aborted.add(fr.path)
                     return ("exc", NonAsyncAbort())
                 finally:
                     self.noflush -= 1
